@@ -35,7 +35,7 @@ ASSUMPTIONS = ["'in-between' cases (needed side present, other side missing) may
 REQUIRED = ["C13:valuation-raises-when-missing", "C13:valuation-ok-when-flat", "C13:rebalance-raises-when-missing",
             "C13:rebalance-ok-when-quoted", "C13:atomic-on-failure", "C13:failpoint-atomic", "C13:episode-atomic",
             "C13:episode-fault-raises", "C13:episode-raises-only-when-needed"]
-REQUIRED_CATS = ["measure:weight", "measure:nr-contracts", "closed-with-float-residual", "episode-fault-latent", "episode-1", "episode-quotes-from-table", "request-previewed-before-faults", "account-cloned-after-faults"]
+REQUIRED_CATS = ["measure:weight", "measure:nr-contracts", "closed-with-float-residual", "episode-fault-latent", "episode-1", "episode-quotes-from-table", "request-previewed-before-faults", "account-cloned-after-faults", "request-with-threshold:nr-contracts"]
 REQUIRED_HITS = ["Broker.transact", "Broker.rebalance", "Rebalancing.make_trades"]
 TECHNIQUE = "runtime monitoring with fault injection: enumerated quote faults and sys.monitoring failpoints, atomicity asserted via the Broker.transact hook"
 LEVEL_TEXT = ("Fault enumeration. All single-contract fault kinds x position x target combinations are enumerated against the real "
@@ -121,7 +121,11 @@ def judge(ctx, b, ex, cs, q, tgt, t, label, intended=None, request=None):
         measure = "nr-contracts"
         tgt = {c: (0 if w == 0 else pos.get(c, 0.0) + ctx.rng.choice([-1, 1]) * ctx.rng.uniform(0.5, 3)) for c, w in tgt.items()}
     ctx.cat("measure:" + measure)
-    r = Rebalancing(keys, [tgt[k] for k in keys], measure=measure, time=t + timedelta(days=1))
+    # (with or without a trading threshold: a leg that cannot be priced is never 'below the threshold')
+    thr_ = ctx.rng.choice([0, 0, 0.05, 0.3])
+    if thr_:
+        ctx.cat("request-with-threshold:" + measure)
+    r = Rebalancing(keys, [tgt[k] for k in keys], measure=measure, margin=thr_, time=t + timedelta(days=1))
     if request is not None:
         r = request         # built (and previewed) by the caller BEFORE the quotes were lost
 
